@@ -19,6 +19,9 @@ def main(path):
     kind, obs, notes, detail = run_concrete(body, rec["values"])
     failed = [n for n, v, _ in obs if not v]
     print(json.dumps({"kind": kind, "failed": failed, "detail": detail, "notes": notes}, default=str, indent=1)[:4000])
+    if kind in ("unsupported", "cut", "assumption"):
+        print("NOT-REPRODUCED (harness could not run: %s)" % detail)
+        return 0
     if kind == "exception" or failed:
         print(f"REPRODUCED property={rec['property']} obligation={failed[0] if failed else 'unexpected-exception'}")
         return 1
